@@ -16,6 +16,23 @@ CLAIMED = {
         "from PyYAML's events; keys/mapping at column 0, no tab as separator.",
         "exhaustive small-string enumeration + Hypothesis grammar/mutation + atheris; differential oracle (PyYAML events)",
     ),
+    "C18": (
+        "Hypothesis-generated object tables serialised as v1/v2 inventories (plus line-level mutations), loaded "
+        "through every 1- and 2-split chunking of small files and random chunk-size sequences of larger ones; "
+        "differential against Sphinx's own loader, chunking metamorphic relation, Sphinx-format round trip; bounded search.",
+        "Trusts sphinx.util.inventory.InventoryFile.loads (8.2.3) as reference; names avoid the exotic line separators "
+        "on which str.splitlines and a '\\n' split legitimately differ.",
+        "Hypothesis table generator + exhaustive small-file chunk partitions; differential (Sphinx loader) + metamorphic (chunking) + round-trip oracles",
+    ),
+    "C19": (
+        "Exhaustive (pattern, name) pairs up to 4x4 / 5x5 over a 6-character alphabet incl. '*', '\\' and regex "
+        "metacharacters against a reference matcher written from the statement (dynamic programming, no re), random "
+        "longer pairs, generated inventories x filter quadruples against a brute-force filter (native and Sphinx "
+        "representation), and inv: links in every spelling through the docutils front end; bounded search.",
+        "Reference matcher is hand-written from the statement; link targets restricted to URL-safe characters so "
+        "markdown-it link normalisation is the identity.",
+        "exhaustive small-pair enumeration + Hypothesis; reference-model oracle (DP matcher, brute-force filter)",
+    ),
     "C16": (
         "Hypothesis markup soup (totality, termination, tree consistency), grammar-generated well-formed HTML and "
         "exhaustive forests of <=4/5 nodes (exact round trip, copy/strip isolation, find = brute-force filter), "
